@@ -47,7 +47,10 @@ def gen_skeleton(rng, idx):
             alphabet.append(("torch", {"outs": outs, "ins": sub, "retain": retain}))
         return {"id": idx, "prog": prog.to_json(), "alphabet": alphabet, "m": m}
     prog, feats, losses, tasks, shared = ajlib.gen_mtl(rng, nested=False)
-    if not shared:
+    # every feature must be used by some loss: an unused feature is still differentiated (and freed)
+    # by mtl_backward while no torch.autograd call on the losses ever reaches it, so the
+    # torch-only twin is not a reference for such programs
+    if not shared or not all(any(prog.reach(l, f) for l in losses) for f in feats):
         return gen_skeleton(rng, idx)
     allp = list(dict.fromkeys([q for ps in tasks for q in ps] + shared))
     alphabet = []
